@@ -489,7 +489,7 @@ class Run:
                 if len(sm) > 1:
                     return "duplicate-flow-after-back"
                 q = self.parent_of(q, by_tid)
-        closed_running = [e for e in hist if e.get("target_state") == "Running" and e["action"] in ("Next", "Submit", "Remove", "Skip")]
+        closed_running = [e for e in hist if e.get("target_state") == "Running" and e["action"] in ("Next", "Submit", "Remove", "Skip", "Abort")]
         if closed_running:
             # a client closed an act that was Running (a composite act, or an act whose catch steps run): everything beneath it stays open
             q = p
@@ -529,7 +529,25 @@ class Run:
                         return "open-under-sibling-marked-skipped-by-skip"
                     q = qp
         if ending == "Aborted" and did("Abort"):
-            return "open-sibling-after-abort"
+            # abort inside one branch of a step: the tasks of its sibling branches stay open (abort closes the act's siblings and its ancestors only)
+            def branch_of(x):
+                q = x
+                while q is not None:
+                    if q["kind"] == "Branch":
+                        return q
+                    q = self.parent_of(q, by_tid)
+                return None
+
+            bd = branch_of(d)
+            for e in hist:
+                if e["action"] != "Abort":
+                    continue
+                for tg in [x for x in ts if x["nid"] == e.get("target")]:
+                    bt = branch_of(tg)
+                    if bd is not None and bt is not None and bd["tid"] != bt["tid"]:
+                        pd, pt = self.parent_of(bd, by_tid), self.parent_of(bt, by_tid)
+                        if pd is not None and pt is not None and pd["tid"] == pt["tid"]:
+                            return "open-sibling-branch-after-abort"
         return "%s=%s under %s" % (d["kind"], d["state"], ("%s=%s" % (p["kind"], p["state"])) if p is not None else "root")
 
     def in_catch_subtree(self, nid):
@@ -805,8 +823,11 @@ class Run:
                 for b in bs:
                     if b.get("needs"):
                         runs = True
-                        for nd in b["needs"]:
-                            order.append((nd, b["id"] + "#run"))
+                        if len(b["needs"]) == 1:
+                            order.append((b["needs"][0], b["id"] + "#run"))
+                        else:
+                            # several needed siblings: the branch starts after A needed sibling finished (any of them)
+                            order.append((tuple(b["needs"]), b["id"] + "#run-any"))
                     elif b.get("if"):
                         runs = conds[b["id"]]
                     elif b.get("else"):
@@ -829,6 +850,23 @@ class Run:
         run_steps(self.model.get("steps") or [])
         out[self.model["id"]] = "Completed"
         return out, order
+
+    def q_c04(self, where):
+        """At quiescence a needs-branch whose needed sibling (any of them) has finished is not waiting any more."""
+        ts = self.tasks()
+        by_tid = {t["tid"]: t for t in ts}
+        for t in ts:
+            if t["kind"] != "Branch" or t["state"] != "Pending":
+                continue
+            r = self.node_attr(t["nid"])
+            needs = (r[1].get("needs") if r else None) or []
+            if not needs:
+                continue
+            p = self.parent_of(t, by_tid)
+            sibs = [x for x in ts if x["kind"] == "Branch" and x["tid"] != t["tid"] and self.parent_of(x, by_tid) is not None and p is not None and self.parent_of(x, by_tid)["tid"] == p["tid"]]
+            done = [x["nid"] for x in sibs if x["nid"] in needs and x["state"] in TERMINAL]
+            if done:
+                self.viol("needs-branch-waits-although-needed-finished", "at quiescence branch %s (needs %s) is still pending although %s finished" % (t["nid"], needs, done))
 
     def e_c04(self, concrete=None):
         W = self.W
@@ -879,6 +917,12 @@ class Run:
             if new == "Running" and nid not in first_running:
                 first_running[nid] = i
         for pred, succ in order:
+            if succ.endswith("#run-any"):
+                s_id = succ[:-8]
+                done = [first_terminal[p] for p in pred if p in first_terminal]
+                if s_id in first_running and (not done or min(done) > first_running[s_id]):
+                    self.viol("order:needs-before-needed-finished", "needs-branch %s started before any of %s finished" % (s_id, list(pred)))
+                continue
             if succ.endswith("#run"):
                 s_id = succ[:-4]
                 if s_id in first_running and (pred not in first_terminal or first_terminal[pred] > first_running[s_id]):
